@@ -118,6 +118,9 @@ func RandomSpec(r *sim.Rand) DocSpec {
 	sp.StdWidths = on(density / 2)
 	sp.BlankPages = on(density / 2)
 	sp.Headings = on(density)
+	if on(density) {
+		sp.Running = 1 + r.Intn(5)
+	}
 	sp.Superscripts = on(density)
 	return sp
 }
@@ -184,6 +187,7 @@ func (sp DocSpec) Features() []string {
 	add(sp.TextOps >= 2, "textops=mixed")
 	add(sp.FormXObj, "form-xobject")
 	add(sp.Superscripts, "superscripts")
+	add(sp.Running > 0, "running-heads")
 	add(sp.FormXObj && sp.FormNest > 0, "form-nest")
 	add(sp.StdWidths, "std-widths")
 	add(sp.BlankPages, "blank-pages")
@@ -579,6 +583,13 @@ func (sp DocSpec) Shrinks() []DocSpec {
 		return true
 	})
 	try(func(s *DocSpec) bool {
+		if s.Running == 0 {
+			return false
+		}
+		s.Running--
+		return true
+	})
+	try(func(s *DocSpec) bool {
 		if !s.Superscripts {
 			return false
 		}
@@ -735,6 +746,9 @@ func SpecWithFeatures(features []string) (DocSpec, bool) {
 			sp.Pages = 4
 		case f == "headings":
 			sp.Headings = true
+		case f == "running-heads":
+			sp.Running = 4
+			sp.Pages = 3
 		case f == "superscripts":
 			sp.Superscripts = true
 			sp.Lines = 5
@@ -882,6 +896,8 @@ func (sp DocSpec) Without(f string) DocSpec {
 		c.BlankPages = false
 	case f == "headings":
 		c.Headings = false
+	case f == "running-heads":
+		c.Running = 0
 	case f == "superscripts":
 		c.Superscripts = false
 	case f == "form-xobject":
